@@ -95,7 +95,8 @@ def configurations(tier):
     mods = [m for _, m in REGISTRY]
     pres = [()] + [(m,) for m in mods]
     pairs = list(itertools.combinations(mods, 2))
-    envs = [None] + [n for n, _ in REGISTRY] + ["nosuchbackend"]
+    # unknown names include proper substrings / superstrings of known ones
+    envs = [None] + [n for n, _ in REGISTRY] + ["nosuchbackend", "zkif", "js", "snark", "backend", "qaptools2", "Snarkjs"]
     loads = [dict(flatbuffers=f, qaptools=q, libsnark=l) for f in (True, False) for q in (True, False) for l in (True, False)]
     out = []
     if tier == "quick":
@@ -107,7 +108,7 @@ def configurations(tier):
         for pre in rnd.sample(pairs, 8):
             out.append((pre, rnd.choice(envs), base))
         for ld in loads:
-            for env in (None, "qaptools", "zkifbellman", "libsnarkgg", "nosuchbackend"):
+            for env in (None, "qaptools", "zkifbellman", "libsnarkgg", "libsnark", "nosuchbackend", "zkif", "lib"):
                 out.append(((), env, ld))
         for m in mods:
             out.append(((m,), None, rnd.choice(loads)))
